@@ -490,7 +490,10 @@ where
             return None;
         }
         if let Some(worker) = worker_hint.and_then(|worker| worker_pool.get(&worker)) {
-            if worker.is_available() {
+            // The hint is either an available worker, or the worker this router picked for this very job a
+            // moment ago (backlog path: `try_route_next_active_job` asks for a target and then routes with
+            // that target as the hint). Picking again would advance the rotation twice for one job.
+            if worker.is_available() || worker_hint == Some(self.last_worker) {
                 return worker_hint;
             }
         }
